@@ -1,57 +1,111 @@
-"""Runs Polar worker jobs in subprocesses with hard timeouts."""
+"""Runs Polar worker jobs in subprocesses with hard per-job timeouts.
+
+A worker process takes jobs one at a time over a pipe; the parent enforces the deadline of every single
+job by killing the process (Polar can hang inside C extension code where no signal handler runs) and
+starts a new worker for the remaining jobs.
+"""
 import json
 import os
+import queue
 import subprocess
-import sys
-from concurrent.futures import ThreadPoolExecutor
+import threading
+import time
 
 VERIF = os.path.dirname(os.path.dirname(os.path.abspath(__file__)))
 PY = "/venv/bin/python"
 
 
-def _run_chunk(chunk, repo, per_job_timeout):
-    env = dict(os.environ, POLAR_REPO=repo, POLAR_VERIF="1", PYTHONHASHSEED=os.environ.get("PYTHONHASHSEED", "0"))
-    for j in chunk:
-        j.setdefault("timeout", per_job_timeout)
-    total = sum(j["timeout"] for j in chunk) + 60
-    out = {}
-    try:
-        p = subprocess.run([PY, "-m", "harness.polar_worker"], input=json.dumps(chunk), cwd=VERIF, env=env,
-                           capture_output=True, text=True, timeout=total)
-        stdout = p.stdout
-        stderr = p.stderr
-    except subprocess.TimeoutExpired as ex:
-        stdout = ex.stdout.decode() if isinstance(ex.stdout, bytes) else (ex.stdout or "")
-        stderr = "chunk timeout"
-    for line in stdout.splitlines():
-        if line.startswith("@@RESULT "):
-            r = json.loads(line[len("@@RESULT "):])
-            out[r["id"]] = r
-    missing = [j for j in chunk if j["id"] not in out]
-    return out, missing, stderr
+class _Worker:
+    def __init__(self, repo, module="harness.polar_worker", hashseed=None):
+        env = dict(os.environ, POLAR_REPO=repo, POLAR_VERIF="1", POLAR_WORKER_STREAM="1",
+                   PYTHONHASHSEED=str(hashseed if hashseed is not None else os.environ.get("PYTHONHASHSEED", "0")))
+        self.p = subprocess.Popen([PY, "-m", module], cwd=VERIF, env=env, stdin=subprocess.PIPE,
+                                  stdout=subprocess.PIPE, stderr=subprocess.DEVNULL, text=True, bufsize=1)
+        self.q = queue.Queue()
+        self.t = threading.Thread(target=self._reader, daemon=True)
+        self.t.start()
+
+    def _reader(self):
+        try:
+            for line in self.p.stdout:
+                if line.startswith("@@RESULT "):
+                    self.q.put(line[len("@@RESULT "):])
+        except Exception:
+            pass
+        self.q.put(None)
+
+    def run(self, job, timeout):
+        try:
+            self.p.stdin.write(json.dumps(job) + "\n")
+            self.p.stdin.flush()
+        except Exception:
+            return None
+        try:
+            line = self.q.get(timeout=timeout)
+        except queue.Empty:
+            return "timeout"
+        if line is None:
+            return None
+        return json.loads(line)
+
+    def close(self):
+        try:
+            self.p.kill()
+        except Exception:
+            pass
+        try:
+            self.p.wait(timeout=5)
+        except Exception:
+            pass
 
 
-def run_jobs(jobs, repo=None, nproc=14, chunk=6, per_job_timeout=120):
-    """returns {job id: result}.  Jobs that crash the worker or hang are retried alone once."""
+def run_jobs(jobs, repo=None, nproc=15, per_job_timeout=120, fresh_each=False, module="harness.polar_worker",
+             hashseed=None):
+    """returns {job id: result}; every job runs under a hard deadline (its 'timeout' + 15 s)."""
     repo = repo or os.environ.get("POLAR_REPO", "/repo")
-    chunks = [jobs[i:i + chunk] for i in range(0, len(jobs), chunk)]
+    todo = queue.Queue()
+    for j in jobs:
+        j.setdefault("timeout", per_job_timeout)
+        todo.put(j)
     results = {}
-    retry = []
-    with ThreadPoolExecutor(max_workers=nproc) as ex:
-        for out, missing, err in ex.map(lambda c: _run_chunk(c, repo, per_job_timeout), chunks):
-            results.update(out)
-            retry.extend(missing)
-        singles = [[j] for j in retry]
-        for (out, missing, err), c in zip(ex.map(lambda c: _run_chunk(c, repo, per_job_timeout), singles), singles):
-            results.update(out)
-            for j in missing:
-                results[j["id"]] = {"id": j["id"], "stage": "crash", "msg": (err or "")[-500:]}
+    lock = threading.Lock()
+
+    def loop():
+        w = None
+        while True:
+            try:
+                j = todo.get_nowait()
+            except queue.Empty:
+                break
+            if w is None:
+                w = _Worker(repo, module, hashseed)
+            r = w.run(j, j["timeout"] + 15)
+            if r == "timeout":
+                r = {"id": j["id"], "stage": "timeout", "hard": True}
+                w.close()
+                w = None
+            elif r is None:
+                r = {"id": j["id"], "stage": "crash"}
+                w.close()
+                w = None
+            elif fresh_each:
+                w.close()
+                w = None
+            with lock:
+                results[j["id"]] = r
+        if w is not None:
+            w.close()
+
+    threads = [threading.Thread(target=loop) for _ in range(min(nproc, max(1, len(jobs))))]
+    for t in threads:
+        t.start()
+    for t in threads:
+        t.join()
     return results
 
 
-def run_fresh(job, repo=None, per_job_timeout=300):
+def run_fresh(job, repo=None, per_job_timeout=300, module="harness.polar_worker", hashseed=None):
     """one job in its own fresh process (used to confirm any disagreement)"""
-    out, missing, err = _run_chunk([dict(job)], repo or os.environ.get("POLAR_REPO", "/repo"), per_job_timeout)
-    if missing:
-        return {"id": job["id"], "stage": "crash", "msg": (err or "")[-500:]}
-    return out[job["id"]]
+    j = dict(job)
+    j.setdefault("timeout", per_job_timeout)
+    return run_jobs([j], repo=repo, nproc=1, fresh_each=True, module=module, hashseed=hashseed)[j["id"]]
